@@ -626,3 +626,161 @@ Proof.
            exists y. apply (reaches_deps m m1 y y Hd1 Hy).
         -- apply (IHd m2 Hd2 Hf2); [|exact He]. intros y Hy. apply Hsub; right; exact Hy.
 Qed.
+
+(* ------------------------------------------------------------------ re_rank restores the rank order *)
+(* a registered edge "a depends on b" is VIOLATED when both instances exist and a is not ranked above b *)
+Definition violated (m : mesh) (a b : Z) : Prop :=
+  depends m a b /\ exists ea eb, find_entry m a = Some ea /\ find_entry m b = Some eb /\ e_rank ea <= e_rank eb.
+
+Lemma find_from_set_nth a : forall l i ks ke e',
+  nth ks l None = Some ke -> e_live e' = e_live ke -> e_key e' = e_key ke ->
+  find_from a i (set_nth ks (Some e') l) = find_from a i l.
+Proof.
+  induction l as [|oe r IH]; intros i ks ke e' Hn Hl Hk; [destruct ks; discriminate|].
+  destruct ks as [|ks]; unfold set_nth; cbn [update find_from].
+  - cbn in Hn. subst oe. unfold live_key. rewrite Hl, Hk. reflexivity.
+  - destruct (live_key a oe); [reflexivity|]. apply (IH (S i) ks ke e'); auto.
+Qed.
+
+Lemma find_from_spec a : forall l i s, find_from a i l = Some s ->
+  (i <= s)%nat /\ exists e, nth (s - i) l None = Some e /\ e_live e = true /\ e_key e = a.
+Proof.
+  induction l as [|oe r IH]; intros i s H; [discriminate|]. cbn [find_from] in H.
+  destruct (live_key a oe) eqn:E.
+  - inversion H; subst. split; [lia|]. replace (s - s)%nat with 0%nat by lia. cbn.
+    destruct oe as [e|]; [|discriminate]. unfold live_key in E. exists e. split; auto. split; lia.
+  - destruct (IH (S i) s H) as (Hle & e & Hn & Hl & Hk). split; [lia|].
+    exists e. replace (s - i)%nat with (S (s - S i)) by lia. cbn. auto.
+Qed.
+
+Lemma find_slot_spec m a s : find_slot m a = Some s ->
+  exists e, get_entry m s = Some e /\ e_live e = true /\ e_key e = a.
+Proof.
+  unfold find_slot, get_entry. intros H. destruct (find_from_spec a _ _ _ H) as (_ & e & Hn & Hl & Hk).
+  replace (s - 0)%nat with s in Hn by lia. eauto.
+Qed.
+
+Lemma get_put_other m s s' e : s <> s' -> get_entry (put_entry s e m) s' = get_entry m s'.
+Proof. intros H. unfold get_entry, put_entry; cbn. unfold set_nth. apply nth_update_other. exact H. Qed.
+
+(* raising the rank of the entry in slot [ks] (key k): every other key's entry is untouched *)
+Lemma find_entry_raise m ks ke r a :
+  get_entry m ks = Some ke -> e_live ke = true ->
+  find_entry (put_entry ks (set_e_rank r ke) m) a =
+  match find_slot m a with
+  | Some s => if Nat.eqb s ks then Some (set_e_rank r ke) else get_entry m s
+  | None => None
+  end.
+Proof.
+  intros Hg Hl. unfold find_entry.
+  assert (Hf : find_slot (put_entry ks (set_e_rank r ke) m) a = find_slot m a).
+  { unfold find_slot, put_entry; cbn. apply (find_from_set_nth a _ 0%nat ks ke); auto. }
+  rewrite Hf. destruct (find_slot m a) as [s|]; [|reflexivity].
+  destruct (Nat.eqb s ks) eqn:E.
+  - apply Nat.eqb_eq in E. subst s. apply get_put_same. congruence.
+  - apply Nat.eqb_neq in E. apply get_put_other. auto.
+Qed.
+
+Lemma failed_walk f k st : forall ds m, failed (walk_of f k st ds m) = false -> failed m = false.
+Proof.
+  intros ds m H. destruct (failed m) eqn:E; [|reflexivity].
+  rewrite (walk_failed_keeps f k st ds m E) in H. congruence.
+Qed.
+
+Lemma depends_deps m m' a b : m_deps m' = m_deps m -> depends m' a b -> depends m a b.
+Proof. unfold depends. intros Hd. rewrite (dep_set_deps m m' b Hd). auto. Qed.
+
+(* RANK ORDER RESTORED.  Whatever re_rank does (any depth of re-ranking through the dependents), when it
+   returns without an error it has introduced no violated edge and the edge it was called for, requester k on
+   dependency d, is not violated: every edge violated afterwards was violated before and is not (k, d). *)
+Lemma re_rank_restores : forall fuel k d stack m,
+  failed m = false -> k <> d -> failed (re_rank fuel k d stack m) = false ->
+  forall a b, violated (re_rank fuel k d stack m) a b -> violated m a b /\ ~ (a = k /\ b = d).
+Proof.
+  induction fuel as [|f IH]; intros k d stack m Hf Hkd.
+  - cbn [re_rank]. unfold raise. rewrite Hf. cbn. discriminate.
+  - rewrite re_rank_S.
+    destruct (find_slot m k) as [ks|] eqn:Ek.
+    2:{ intros _ a b Hv. split; [exact Hv|]. intros [-> ->]. destruct Hv as (_ & ea & eb & Ha & _).
+        unfold find_entry in Ha. rewrite Ek in Ha. discriminate. }
+    destruct (find_entry m d) as [de|] eqn:Ed.
+    2:{ intros _ a b Hv. split; [exact Hv|]. intros [-> ->]. destruct Hv as (_ & ea & eb & _ & Hb & _). congruence. }
+    destruct (find_slot_spec m k ks Ek) as (ke & Hg & Hl & Hk). rewrite Hg.
+    assert (Hfk : find_entry m k = Some ke) by (unfold find_entry; rewrite Ek; exact Hg).
+    destruct (e_rank de <? e_rank ke) eqn:Er.
+    { intros _ a b Hv. split; [exact Hv|]. intros [-> ->]. destruct Hv as (_ & ea & eb & Ha & Hb & Hr).
+      rewrite Hfk in Ha. rewrite Ed in Hb. inversion Ha; inversion Hb; subst. lia. }
+    cbv zeta. set (r := e_rank de + 1).
+    set (m1 := set_m_maxrank (Z.max (m_maxrank m) r) (put_entry ks (set_e_rank r ke) m)).
+    assert (Hd1 : m_deps m1 = m_deps m) by reflexivity.
+    assert (Hf1 : failed m1 = false) by exact Hf.
+    (* entries of m1 *)
+    assert (Hfe : forall a, find_entry m1 a =
+                   match find_slot m a with
+                   | Some s => if Nat.eqb s ks then Some (set_e_rank r ke) else get_entry m s
+                   | None => None end).
+    { intros a. unfold m1. apply (find_entry_raise m ks ke r a Hg Hl). }
+    assert (Hother : forall a, a <> k -> find_entry m1 a = find_entry m a).
+    { intros a Ha. rewrite Hfe. unfold find_entry. destruct (find_slot m a) as [s|] eqn:Es; [|reflexivity].
+      destruct (Nat.eqb s ks) eqn:E; [|reflexivity]. apply Nat.eqb_eq in E. subst s.
+      destruct (find_slot_spec m a ks Es) as (e2 & Hg2 & _ & Hk2). rewrite Hg in Hg2. inversion Hg2; subst. congruence. }
+    assert (Hself : find_entry m1 k = Some (set_e_rank r ke)).
+    { rewrite Hfe, Ek, Nat.eqb_refl. reflexivity. }
+    (* the invariant of the walk *)
+    assert (Hstart : forall a b, violated m1 a b ->
+              (violated m a b /\ ~ (a = k /\ b = d)) \/ (b = k /\ In a (dep_set m1 k))).
+    { intros a b (Hdep & ea & eb & Ha & Hb & Hr).
+      destruct (Z.eq_dec b k) as [->|Hbk]; [right; split; [reflexivity|exact Hdep]|].
+      left. rewrite (Hother b Hbk) in Hb.
+      destruct (Z.eq_dec a k) as [->|Hak].
+      - rewrite Hself in Ha. inversion Ha; subst. cbn in Hr. split.
+        + split; [apply (depends_deps m m1 _ _ Hd1 Hdep)|]. exists ke, eb. repeat split; auto. unfold r in Hr. lia.
+        + intros [_ ->]. rewrite Ed in Hb. inversion Hb; subst. unfold r in Hr. lia.
+      - rewrite (Hother a Hak) in Ha. split; [|intros [-> _]; congruence].
+        split; [apply (depends_deps m m1 _ _ Hd1 Hdep)|]. exists ea, eb. auto. }
+    revert Hstart. generalize (dep_set m1 k). revert Hd1 Hf1. generalize m1. clear m1 Hfe Hother Hself.
+    intros m1 Hd1 Hf1 ds. revert m1 Hd1 Hf1.
+    induction ds as [|x rest IHd]; intros m1 Hd1 Hf1 Hinv Hres a b Hv.
+    + rewrite walk_of_nil in Hv. destruct (Hinv a b Hv) as [H|[_ []]]. exact H.
+    + rewrite walk_of_cons, Hf1 in Hres, Hv.
+      destruct (zmem x (k :: stack)) eqn:Ex.
+      { unfold raise in Hres. rewrite Hf1 in Hres. cbn in Hres. discriminate. }
+      assert (Hxk : x <> k).
+      { intros ->. cbn in Ex. rewrite Z.eqb_refl in Ex. discriminate. }
+      set (m2 := re_rank f x k (k :: stack) m1) in *.
+      assert (Hf2 : failed m2 = false) by (apply (failed_walk f k (k :: stack) rest m2 Hres)).
+      assert (Hd2 : m_deps m2 = m_deps m) by (unfold m2; rewrite deps_re_rank; exact Hd1).
+      apply (IHd m2 Hd2 Hf2); [|exact Hres|exact Hv].
+      intros a' b' Hv'. destruct (IH x k (k :: stack) m1 Hf1 Hxk Hf2 a' b' Hv') as (Hv1 & Hne).
+      destruct (Hinv a' b' Hv1) as [H|[-> [->|Hin]]]; [left; exact H| |right; split; [reflexivity|exact Hin]].
+      exfalso. apply Hne. split; reflexivity.
+Qed.
+
+(* the rank order as an invariant of add_dependency (both instances existing): if the only edge that may be
+   violated after registering (k, d) is that edge, nothing is violated when add_dependency returns normally *)
+Lemma add_dependency_keeps_rank_order k d t m :
+  failed m = false -> k <> d ->
+  (forall a b, violated (dep_insert d k m) a b -> a = k /\ b = d) ->
+  find_entry (dep_insert d k m) d <> None ->
+  failed (fst (add_dependency k d t m)) = false ->
+  forall a b, ~ violated (fst (add_dependency k d t m)) a b.
+Proof.
+  intros Hf Hkd Honly Hd. unfold add_dependency.
+  destruct (k =? d) eqn:E; [lia|].
+  set (m1 := dep_insert d k m) in *.
+  assert (Hf1 : failed m1 = false).
+  { unfold m1, dep_insert. destruct (dep_find m d); exact Hf. }
+  destruct (find_entry m1 k) as [ke|] eqn:Ek.
+  2:{ cbn [fst]. intros _ a b Hv. destruct (Honly a b Hv) as [-> ->].
+      destruct Hv as (_ & ea & eb & Ha & _). congruence. }
+  destruct (find_entry m1 d) as [de|] eqn:Ed; [|congruence].
+  destruct (e_rank ke <=? e_rank de) eqn:Er.
+  - cbn [fst]. intros Hres a b Hv.
+    destruct (re_rank_restores (rank_fuel m1) k d [] m1 Hf1 Hkd Hres a b Hv) as (Hv1 & Hne).
+    apply Hne. apply Honly. exact Hv1.
+  - assert (Hno : forall a b, ~ violated m1 a b).
+    { intros a b Hv. destruct (Honly a b Hv) as [-> ->]. destruct Hv as (_ & ea & eb & Ha & Hb & Hr).
+      rewrite Ek in Ha. rewrite Ed in Hb. inversion Ha; inversion Hb; subst. lia. }
+    destruct (e_settled de =? t); [cbn [fst]; intros _; exact Hno|].
+    destruct (e_paused de); cbn [fst]; intros _; exact Hno.
+Qed.
